@@ -1276,7 +1276,10 @@ fn ampersand(mut args: LexArgs) -> OffsetAndTokenType {
         Some(b'%') => binary_number_literal(args.consume(1)),
         Some(b'0'..=b'9') => dec_number_literal(args.consume(1)),
         Some(b'a'..=b'z' | b'A'..=b'Z' | b'_') => identifier(args.consume(1)),
-        Some(0x80..) => unicode_identifier(args.consume(1)),
+        // U+3000 is whitespace: it cannot start the escaped identifier
+        Some(0x80..) if !args.input[args.offset..].starts_with('\u{3000}') => {
+            unicode_identifier(args.consume(1))
+        }
         _ => unknown(args),
     }
 }
